@@ -231,7 +231,7 @@ def run(ctx):
                 continue
             term, rank, srt = wiring.coq_scenario(s, facts)
             app_rank = [rank[f["name"]] for f in facts if f["isapp"]][0]
-            lk = vlib.coq_list(str(rank[n]) for n in runs[0][0]["lookups"])
+            lk = vlib.coq_list(str(runs[0][0]["names"][n]) for n in runs[0][0]["lookups"])
             obs = [wiring.coq_obs(r, app_rank) for _, r in runs]
             terms.append("(mkP (mkW %d %s %s %s %s) %s)" % (s["id"], term, lk, obs[0], wiring.coq_extras(s, rank),
                                                                vlib.coq_list(obs[1:])))
